@@ -4,7 +4,7 @@
 //!   open <min_len>            an opener on a fresh thread that keeps the Database if it gets one
 //!   probe thread|child <min>  an opener that drops it again at once
 //!   ref clone|reader|regiondb extend the holder's lifetime
-//!   bg                        background task of the holder (joined by the last drop)
+//!   bg                        background task of the holder (joined by the last drop: checked — none may outlive it)
 //!   drop <k>                  drop the k-th (mod n) live reference
 //!   touch <v>                 the holder writes v into region "r" and flushes
 //! answer: `<opened:v | refused | ok | na> | D <data file length> | O <oracle>`
@@ -63,13 +63,15 @@ fn data_len(path: &Path) -> u64 {
     std::fs::metadata(path.join("data")).map(|m| m.len()).unwrap_or(0)
 }
 
-pub struct Case { _dir: tempfile::TempDir, path: PathBuf, holders: Vec<Holder>, region: Option<Region>, flushed: u64 }
+pub struct Case { _dir: tempfile::TempDir, path: PathBuf, holders: Vec<Holder>, region: Option<Region>, flushed: u64,
+    /// background tasks of the current instance that have not finished yet / how many were started on it
+    bg_running: std::sync::Arc<std::sync::atomic::AtomicUsize>, bg_started: u64 }
 
 impl Case {
     pub fn new(tmp: &Path) -> Self {
         let dir = tempfile::tempdir_in(tmp).unwrap();
         let path = dir.path().join("db");
-        Case { _dir: dir, path, holders: vec![], region: None, flushed: 0 }
+        Case { _dir: dir, path, holders: vec![], region: None, flushed: 0, bg_running: Default::default(), bg_started: 0 }
     }
 
     fn some_db(&self) -> Option<Database> {
@@ -139,14 +141,34 @@ impl Case {
                 }
                 ["bg"] => {
                     let Some(db) = self.some_db() else { return ("na".into(), vec![]) };
-                    db.run_bg(|db| { db.bg_sleep(Duration::from_millis(300)); db.flush()?; Ok(()) });
+                    // earlier tasks run longer than later ones: if the last drop joined only some of them, one is still running
+                    let extra = 300u64.saturating_sub(100 * self.bg_started).max(50);
+                    self.bg_started += 1;
+                    let running = self.bg_running.clone();
+                    running.fetch_add(1, std::sync::atomic::Ordering::SeqCst);
+                    db.run_bg(move |db| {
+                        db.bg_sleep(Duration::from_millis(300));
+                        std::thread::sleep(Duration::from_millis(extra));
+                        let r = db.flush();
+                        running.fetch_sub(1, std::sync::atomic::Ordering::SeqCst);
+                        r?;
+                        Ok(())
+                    });
                     ("ok".into(), vec![])
                 }
                 ["drop", k] => {
                     if self.holders.is_empty() { return ("na".into(), vec![]); }
                     let k = k.parse::<usize>().unwrap() % self.holders.len();
                     drop(self.holders.remove(k));
-                    ("ok".into(), vec![])
+                    let mut fails = vec![];
+                    if self.holders.is_empty() {
+                        // the instance is gone and its lock released: every background task must have been joined
+                        let n = self.bg_running.load(std::sync::atomic::Ordering::SeqCst);
+                        if n != 0 { fails.push(format!("C18: the last reference was dropped (lock released) while {n} background task(s) of the instance were still running")); }
+                        self.bg_running = Default::default();
+                        self.bg_started = 0;
+                    }
+                    ("ok".into(), fails)
                 }
                 ["touch", v] => {
                     let Some(db) = self.some_db() else { return ("na".into(), vec![]) };
